@@ -94,6 +94,18 @@ void h_trace(void){   /* offset 0, axes (0,1): sum_i a[i,i,...] */
   EL_ASSERT(out == acc, "trace element == sum of the main diagonal");
   OBS(out); OBS(od); OBS(os[0]); REACHED();
 }
+/* trace(a, offset) of a 2-d array: sum_i a[i - min(offset,0), i + max(offset,0)] (np.trace); offset symbolic over every diagonal that has at least one element */
+void h_trace_offset(void){
+  sym_shapes();
+  i32 off = in_i32(-3, 3); ASSUME(off > -(i32)sa[0] && off < (i32)sa[1]);
+  u64 idx0[4] = {0};
+  int r = k_trace_2o(sa, da, (u32)off, idx0, 0, os, &od, &out);
+  ASSERT(r == 1 && od == 0, "trace of a 2-d array is a number");
+  u8 acc = 0;
+  for (u64 i = 0; i < 4; i++){ i64 rr = (i64)i - (off < 0 ? off : 0), cc = (i64)i + (off > 0 ? off : 0); if (rr < (i64)sa[0] && cc < (i64)sa[1]) acc = (u8)(acc + da[rr*sa[1] + cc]); }
+  EL_ASSERT(out == acc, "trace(a, offset) == sum of the offset diagonal");
+  OBS(out); REACHED();
+}
 #elif defined(R_DOT) || defined(R_INNER)
 /* dot: sum over the last axis of a and the second-to-last of b (last if b is 1-d); inner: over both last axes */
 void h_dotlike(void){
